@@ -72,7 +72,21 @@ def root_signature(hj):
         if root["signature"]["params"]:
             raise Malformed("polymorphic function value")
         return canon({"t": "G", **root["signature"]["body"]})
+    if root["op"] == "TailLoop":
+        # the body of a loop takes just_inputs + rest and yields Sum(just_inputs | just_outputs) + rest
+        ji, jo, rest = root["just_inputs"], root["just_outputs"], root["rest"]
+        return canon({"t": "G", "input": [*ji, *rest],
+                      "output": [{"t": "Sum", "s": "General", "rows": [ji, jo]}, *rest],
+                      "runtime_reqs": []})
     raise Malformed(f"function value rooted at {root['op']}")
+
+
+def body_rows(hj):
+    """(Input row, Output row) of the first two children of the root of a serialized HUGR, or None"""
+    kids = [n for i, n in enumerate(hj["nodes"]) if i != 0 and n["parent"] == 0]
+    if len(kids) >= 2 and kids[0]["op"] == "Input" and kids[1]["op"] == "Output":
+        return [canon(t) for t in kids[0]["types"]], [canon(t) for t in kids[1]["types"]]
+    return None
 
 
 def type_of_value(v):
